@@ -4,7 +4,7 @@ Require Import ExtrOcamlBasic.
 From HV Require Import TokIR.IR TokIR.Interp Gen.GenHtmlTok Gen.GenXmlTok Golden.GoldenHtmlTok Golden.GoldenXmlTok.
 Extraction Language OCaml.
 Extraction "Extract/tok_model.ml"
-  Interp.drive Interp.init_cfg Interp.html_flavour Interp.xml_flavour
+  Interp.drive_chunked Interp.drive_flat Interp.init_cfg Interp.html_flavour Interp.xml_flavour
   GenHtmlTok.html_table GenHtmlTok.html_state_names GenHtmlTok.simd_first_guard GenHtmlTok.simd_tail_stop
   GenHtmlTok.simd_tail_newline GenHtmlTok.simd_lane_stop GenHtmlTok.simd_lane_newline
   GenXmlTok.xml_table GenXmlTok.xml_state_names
